@@ -65,6 +65,7 @@ theorem fold_ok (f : String) (hf : compileCalls.contains f = false) :
     | sn _ _ => exact absurd hs (by simp [segOk])
     | inc _ _ _ _ => exact absurd hs (by simp [segOk])
     | call _ _ _ => exact absurd hs (by simp [segOk])
+    | mode _ => exact absurd hs (by simp [segOk])
 
 theorem judge_of_segOk (f : String) (args : List CStr) (evs : List Ev)
     (hf : compileCalls.contains f = false) (h : segOk f [] evs) :
@@ -132,6 +133,7 @@ theorem segOk_mono (f : String) : ∀ (evs : List Ev) (apps apps' : List Approva
     | sn _ _ => exact absurd h (by simp [segOk])
     | inc _ _ _ _ => exact absurd h (by simp [segOk])
     | call _ _ _ => exact absurd h (by simp [segOk])
+    | mode _ => exact absurd h (by simp [segOk])
 
 /-- approvals in force after a list of events -/
 def appsAfter : List Approval → List Ev → List Approval
@@ -159,6 +161,7 @@ theorem segOk_append (f : String) : ∀ (e1 e2 : List Ev) (apps : List Approval)
     | sn _ _ => exact absurd h1 (by simp [segOk])
     | inc _ _ _ _ => exact absurd h1 (by simp [segOk])
     | call _ _ _ => exact absurd h1 (by simp [segOk])
+    | mode _ => exact absurd h1 (by simp [segOk])
 
 theorem covers_self (a : CStr) : covers a a = true := by simp [covers]
 
@@ -280,6 +283,9 @@ theorem segOk_rename (f : String) (pol : Policy) (ex : List CStr) (sym : Bool) (
         have k2 : ∀ fn, apps'.any (okBy fn true (if c = true then to ++ '/' :: baseName from' else to)) = true :=
           fun fn => any_okBy _ _ _ _ ⟨true, to⟩ m2 l2 tc (by simp)
         cases sym <;> simp [segOk, k1, k2, hs', ts]
+      by_cases hr : (pol.verdict to).raises = true
+      · simp [hr, segOk, a1, a2, hop1, hop2]
+      simp only [hr, Bool.false_eq_true, ↓reduceIte]
       cases h3 : checkValidPath true (pol.verdict to) to with
       | none =>
         simp only [List.append_assoc, List.singleton_append, List.nil_append, segOk, a1, a2, Option.toList_some,
@@ -412,8 +418,66 @@ theorem model_satisfies_spec (pol : Policy) (ex : List CStr) (efun : String) (ar
   simp only [efunNames, List.mem_cons, List.not_mem_nil, or_false] at h
   rcases h with h | h | h | h | h | h | h | h | h | h | h | h | h | h | h | h | h | h | h | h | h | h <;> subst h <;> decide
 
+/-! ### a master without valid_read / valid_write -/
+
+theorem fold_absent (f : String) : ∀ (evs : List Ev) (apps : List Approval) (s : JState),
+    s.bad = [] → s.absent = true → segOk f apps evs →
+    ((evs.filter (fun e => !e.isValid)).foldl judgeStep s).bad = [] := by
+  intro evs
+  induction evs with
+  | nil => intro _ s h _ _; simpa using h
+  | cons e rest ih =>
+    intro apps s hb ha hs
+    cases e with
+    | valid w path who op v =>
+      obtain ⟨_, _, h3⟩ := hs
+      simpa [Ev.isValid] using ih _ s hb ha h3
+    | fs fn w p =>
+      obtain ⟨h1, _, h3⟩ := hs
+      have hna : absolute p = false := by
+        simp [safe] at h1; simpa [absolute] using h1.1
+      have hstep : judgeStep s (.fs fn w p) = s := by
+        simp [judgeStep, hna, h1, ha]
+      simp only [Ev.isValid, Bool.not_false, List.filter_cons_of_pos, List.foldl_cons, hstep]
+      exact ih apps s hb ha h3
+    | note n =>
+      simp only [Ev.isValid, Bool.not_false, List.filter_cons_of_pos, List.foldl_cons]
+      exact ih apps s hb ha hs
+    | lp _ _ => exact absurd hs (by simp [segOk])
+    | cvp _ _ _ => exact absurd hs (by simp [segOk])
+    | sn _ _ => exact absurd hs (by simp [segOk])
+    | inc _ _ _ _ => exact absurd hs (by simp [segOk])
+    | call _ _ _ => exact absurd hs (by simp [segOk])
+    | mode _ => exact absurd hs (by simp [segOk])
+
+/-- **model_satisfies_spec, master without valid_read / valid_write** (as coded: everything is approved, nothing
+    is logged): the oracle — which in this mode can only demand confinement — has no objection: every path the
+    model touches is relative and free of "..", for every efun and every argument. -/
+theorem model_satisfies_spec_absent (pol : Policy) (ex : List CStr) (efun : String) (args : List CStr) (a b : CStr)
+    (h : efun ∈ efunNames) :
+    judgeEv (.mode true :: .call efun whoObj args :: sysEvents true pol ex efun a b) = [] := by
+  unfold judgeEv sysEvents
+  simp only [↓reduceIte, List.foldl_cons]
+  have := fold_absent efun _ [] (judgeStep (judgeStep {} (.mode true)) (.call efun whoObj args)) rfl rfl
+    (efun_segOk .allow ex efun a b h)
+  rw [this]; rfl
+
+/-- with a master that has the functions the extended model is the mediated one -/
+theorem model_satisfies_spec_present (pol : Policy) (ex : List CStr) (efun : String) (args : List CStr) (a b : CStr)
+    (h : efun ∈ efunNames) :
+    judgeEv (.call efun whoObj args :: sysEvents false pol ex efun a b) = [] := by
+  simpa [sysEvents] using model_satisfies_spec pol ex efun args a b h
+
 /-- non-vacuity: a trace with real events, and the oracle does object to an unmediated touch -/
 example : (efunEvents .allow [] "rename" (str "/d/f.txt") (str "/d/sub")).length = 6 := by decide
+example : efunEvents .raise [] "rename" (str "/d/f.txt") (str "/d/sub") =
+    [.valid true (str "/d/f.txt") whoObj "rename" .raise] := by decide
+example : efunEvents (.raiseOn (str "d/sub")) [] "rename" (str "/d/f.txt") (str "/d/sub") =
+    [.valid true (str "/d/f.txt") whoObj "rename" .ok, .valid true (str "/d/sub") whoObj "rename" .ok,
+     .valid false (str "d/sub") whoObj "file_size" .raise] := by decide
+/-- fail open is an objection: the master raised an error and the file is touched all the same -/
+example : judgeEv [.call "rm" whoObj [str "/d/f"], .valid true (str "/d/f") whoObj "remove_file" .raise,
+                   .fs "unlink" true (str "d/f")] ≠ [] := by decide
 example : judgeEv [.call "rm" whoObj [str "/d/f"], .fs "unlink" true (str "d/f")] ≠ [] := by decide
 example : judgeEv [.call "rm" whoObj [str "/d/f"], .valid false (str "/d/f") whoObj "remove_file" .ok,
                    .fs "unlink" true (str "d/f")] ≠ [] := by decide
